@@ -63,3 +63,20 @@ Theorem C13_utf8_roundtrip : forall r rest, Unquote.scalar r = true ->
   Unquote.decode_rune (Unquote.encode_rune r ++ rest) = (r, List.length (Unquote.encode_rune r)).
 Proof. exact UnquoteProofs.decode_encode. Qed.
 Print Assumptions C13_utf8_roundtrip.
+
+(* schema half, plain JSON schemas: the layout of the schema TEXT does not matter.  Two texts that spell
+   value trees with the same mirror image (same tokens, same keys, same nesting; blanks, tabs and line
+   breaks chosen freely) give the same result of the whole pipeline (Schema/E2E.v) on every document.
+   Proof in Schema/E2EProofs.v. *)
+From JS Require Json.Grammar Schema.Shape Schema.E2E Schema.E2EProofs SchemaScan.Loader SchemaScan.LoaderProofs.
+
+Theorem C13_schema_layout_invariant_plain_json : forall optd w1 v w2 w1' v' w2' d,
+  Json.Grammar.all_blank w1 = true -> Json.Grammar.wf v = true -> Json.Grammar.all_blank w2 = true ->
+  LoaderProofs.no_exponent v = true -> LoaderProofs.distinct_keys v = true ->
+  Json.Grammar.all_blank w1' = true -> Json.Grammar.wf v' = true -> Json.Grammar.all_blank w2' = true ->
+  LoaderProofs.no_exponent v' = true -> LoaderProofs.distinct_keys v' = true ->
+  LoaderProofs.mirror v = LoaderProofs.mirror v' ->
+  E2E.e2e_validate optd (w1 ++ Json.Grammar.render v ++ w2) d =
+  E2E.e2e_validate optd (w1' ++ Json.Grammar.render v' ++ w2') d.
+Proof. exact E2EProofs.e2e_layout_invariant. Qed.
+Print Assumptions C13_schema_layout_invariant_plain_json.
